@@ -47,7 +47,13 @@ func c09History(r *rand.Rand, i int, tier string) []Ev {
 			s = rndSig(r)
 		}
 		if i%30 == 0 && (tier != "thorough" || i%600 == 0) {
-			growSig(r, &s, 1024+r.Intn(400)) // re-encoding a section longer than 1023 bytes
+			target := 1024 + r.Intn(400) // re-encoding a section longer than 1023 bytes
+			if (i/30)%2 == 1 {
+				// section_length exactly at, just below and just above a multiple of 1024 (the two upper bits of the 12-bit field
+				// are written apart from the ten lower ones), and at the maximum
+				target = 3 + []int{1024, 1023, 1025, 2048, 3072, 1024, 2047, 4093}[r.Intn(8)]
+			}
+			growSig(r, &s, target)
 		}
 		kind = s.Cmd.Kind
 		order := []string{}
